@@ -9,9 +9,22 @@ from .internals import DataFrameInternal
 from .readwriter import DataFrameReader
 from .schema_utils import infer_schema_from_list
 from .types import (
-    _create_converter, _has_nulltype, _infer_schema, _make_type_verifier, _merge_type, DataType, StructType
+    _create_converter, _has_nulltype, _infer_schema, _make_type_verifier, _merge_type, DataType, Row, StructType
 )
 from .utils import require_minimum_pandas_version
+
+
+def _values_in_order(own_names):
+    """Rows that are given new column names: their values in the order of
+    their own (inferred) field names, which the new names replace position
+    by position."""
+    def values_in_order(row):
+        fields = getattr(row, "__fields__", None)
+        if (isinstance(row, Row) and fields is not None and list(fields) != own_names
+                and len(set(fields)) == len(fields) and all(n in fields for n in own_names)):
+            return tuple(row[n] for n in own_names)
+        return tuple(row) if isinstance(row, Row) else row
+    return values_in_order
 
 
 class SparkSession:
@@ -142,6 +155,7 @@ class SparkSession:
             converter = _create_converter(struct)
             rdd = rdd.map(converter)
             if isinstance(schema, (list, tuple)):
+                rdd = rdd.map(_values_in_order(list(struct.names)))
                 for i, name in enumerate(schema):
                     struct.fields[i].name = name
                     struct.names[i] = name
@@ -168,6 +182,7 @@ class SparkSession:
             converter = _create_converter(struct)
             data = map(converter, data)
             if isinstance(schema, (list, tuple)):
+                data = map(_values_in_order(list(struct.names)), data)
                 for i, name in enumerate(schema):
                     struct.fields[i].name = name
                     struct.names[i] = name
